@@ -12,6 +12,8 @@ CHECKS['C10'] = {
     'units': [
         unit('gomanifest', 'manifest', '^TestVerifC10', {'shards': 6, 'checks': 600}, {'shards': 8, 'checks': 40000, 'timeout': 2400}, crash_is_violation=True),
         unit('loader', 'arvados', '^TestVerifC10', {'shards': 6, 'checks': 600}, {'shards': 8, 'checks': 40000, 'timeout': 2400}, crash_is_violation=True),
+        unit('fuzzloader', 'arvados', None, {'shards': 1}, {'shards': 1, 'fuzztime': 150, 'parallel': 8}, kind='gofuzz', rapid=False, fuzz='FuzzVerifC10Loader'),
+        unit('fuzzmanifest', 'manifest', None, {'shards': 1}, {'shards': 1, 'fuzztime': 150, 'parallel': 8}, kind='gofuzz', rapid=False, fuzz='FuzzVerifC10Manifest'),
         unit('python', 'py', None, {'shards': 2, 'checks': 1500}, {'shards': 8, 'checks': 40000, 'timeout': 2400}, kind='python', rapid=False, script='py/c10_ranges.py'),
     ],
 }
